@@ -11,6 +11,7 @@ use crate::{
 use std::fmt::{Display, Formatter};
 use std::io;
 use std::io::ErrorKind;
+use std::sync::atomic::{AtomicUsize, Ordering};
 use std::sync::{Arc, Mutex};
 
 #[derive(Clone)]
@@ -89,6 +90,11 @@ impl Tunnel {
     }
 
     async fn listen_inner(&mut self) -> io::Result<()> {
+        // Requests being served on this session. The client listener timeout is an idle
+        // timeout of the session: it must not cut requests which are still in progress
+        // (over HTTP/1.1 `listen()` is also what relays the payload of the current request).
+        let active_requests = Arc::new(AtomicUsize::new(0));
+
         loop {
             log_id!(trace, self.id, "Tunnel waiting for request");
             let request = match tokio::time::timeout(
@@ -108,6 +114,14 @@ impl Tunnel {
                 Ok(Err(e)) => {
                     log_id!(trace, self.id, "Tunnel listen error: {}", e);
                     return Err(e);
+                }
+                Err(_) if active_requests.load(Ordering::Acquire) > 0 => {
+                    log_id!(
+                        trace,
+                        self.id,
+                        "Tunnel listen timeout with requests in progress, keep listening"
+                    );
+                    continue;
                 }
                 Err(_) => {
                     log_id!(trace, self.id, "Tunnel listen timeout");
@@ -131,7 +145,18 @@ impl Tunnel {
                 }
             };
 
+            struct ActiveRequestGuard(Arc<AtomicUsize>);
+            impl Drop for ActiveRequestGuard {
+                fn drop(&mut self) {
+                    self.0.fetch_sub(1, Ordering::AcqRel);
+                }
+            }
+            active_requests.fetch_add(1, Ordering::AcqRel);
+            let active_request_guard = ActiveRequestGuard(active_requests.clone());
+
             tokio::spawn(async move {
+                let _active_request_guard = active_request_guard;
+
                 fn report_fatal_if_too_many_open_files(
                     context: &Arc<core::Context>,
                     e: &ConnectionError,
